@@ -84,3 +84,31 @@ Lemma code_keeps_subscription :
   all_enabled one (init [[RAct (SM 0) false; RClose]; [RAct (SM 0) false]] [[(P00, 1)]]) sched = true /\
   logs s 1 = [EReq (RAct (SM 0) false); EUpd P00 0; ERep (RpActive (SM 0)); EUpd P00 1] /\ listens s 1 P00 = true.
 Proof. vm_compute. repeat split; reflexivity. Qed.
+
+(* NOT the code: the variant of unsubscribe that returns early when the event itself has no entry in the table
+   (unsubscribe_early_return), skipping the loop over the more specific events.  Fresh table: connection 0 has activated
+   m0:value only (c0: start recv acquire:disp add acquire:upd0 build send send(active)) and nobody ever the bare module
+   m0.  `deactivate m0`: the variant leaves the connection listening to m0:value, the code removes it. *)
+Definition fresh_sched : list (tid * conn) := repeat (TC 0, 0) 8.
+Lemma refuted_early_return_keeps_parameter_scope :
+  exists nd cs us sched c m q,
+    all_enabled nd (init cs us) sched = true /\
+    let s := run nd cs us sched in
+    logs s c = [EReq (RAct (SP m q) false); EUpd (m, q) 0; ERep (RpActive (SP m q))] /\
+    find_key (SM m) (tbl s) = None /\
+    listens (unsubscribe_early_return s c (SM m)) c (m, q) = true /\
+    listens (unsubscribe_code s c (SM m)) c (m, q) = false.
+Proof.
+  exists one, [[RAct (SP 0 0) false]], [], fresh_sched, 0, 0, 0. vm_compute. repeat split; reflexivity.
+Qed.
+(* control: once anybody (here connection 1, which has left again) has activated the bare module, its entry stays in
+   the table for good and the variant behaves like the code - the defect of the variant shows on a fresh table only *)
+Definition control_sched : list (tid * conn) := repeat (TC 1, 0) 11 ++ repeat (TC 0, 0) 8.
+Lemma early_return_control :
+  let cs := [[RAct (SP 0 0) false]; [RAct (SM 0) false; RDeact (SM 0) false]] in
+  let s := run one cs [] control_sched in
+  all_enabled one (init cs []) control_sched = true /\
+  find_key (SM 0) (tbl s) = Some 0 /\ listens s 0 P00 = true /\
+  listens (unsubscribe_early_return s 0 (SM 0)) 0 P00 = false /\
+  listens (unsubscribe_code s 0 (SM 0)) 0 P00 = false.
+Proof. vm_compute. repeat split; reflexivity. Qed.
